@@ -711,6 +711,8 @@ def dim_of(va, vb):
     sa, sb = (a[8] if len(a) > 8 else "-"), (b[8] if len(b) > 8 else "-")
     if ("c" in sa) != ("c" in sb) and a[2] == b[2]:
         return "compaction"
+    if "c" in sa and "c" in sb:
+        return "compaction"       # a compacting rocksdb replica vs a (never dropping) pebble / mem one
     if "s" in sa and "s" in sb:
         return "syncer-replay" if a[3] != b[3] else "syncer-batching"
     if a[3] != b[3] and a[7] == b[7]:
